@@ -220,6 +220,10 @@ func checkC03(ctx *Ctx) *Result {
 	checkFirst(ctx, r)
 	// "allowed origin" rests on the origin tree: its structural necessary conditions
 	treeRules(ctx, r)
+	// "Max-Age carries exactly the configured value": what cfg.acma holds is
+	// decided by the integer validator (-1 ↦ 0, 0 ↦ absent, n ↦ n)
+	r.rule("R4.3", "integer validators: exact accepted sets, outputs (the pre-rendered Max-Age value, the success status) and error fields", 2)
+	intRule(ctx, r, "R4.3")
 	return r
 }
 
